@@ -37,6 +37,10 @@ var workDir = func() string {
 	return d
 }()
 
+// raceSem bounds the number of obligations raced at the same time over all VCs of a run (six solver
+// processes each): the time limits are wall-clock, so the machine must not be oversubscribed
+var raceSem = make(chan struct{}, 4)
+
 var tmpSeq int
 var tmpMu sync.Mutex
 
@@ -64,7 +68,17 @@ func runSolver(s solverSpec, file string, ms int, hard time.Duration) (string, f
 	return runSolverCtx(context.Background(), s, file, ms, hard)
 }
 
+// cpuTokens: one per solver process; the solvers' time limits are wall-clock, so a proof must not
+// depend on how many other queries happen to run at the same moment
+var cpuTokens = make(chan struct{}, 14)
+
 func runSolverCtx(parent context.Context, s solverSpec, file string, ms int, hard time.Duration) (string, float64) {
+	select {
+	case cpuTokens <- struct{}{}:
+	case <-parent.Done():
+		return "", 0
+	}
+	defer func() { <-cpuTokens }()
 	ctx, cancel := context.WithTimeout(parent, hard)
 	defer cancel()
 	a := s.args(file, ms)
@@ -237,13 +251,12 @@ func solveVC(vc *VC, o solveOpts) []*Result {
 		return results
 	}
 	var wg sync.WaitGroup
-	sem := make(chan struct{}, 8)
 	for _, i := range pending {
 		wg.Add(1)
 		go func(i int) {
 			defer wg.Done()
-			sem <- struct{}{}
-			defer func() { <-sem }()
+			raceSem <- struct{}{}
+			defer func() { <-raceSem }()
 			raceOne(vc, results[i], o)
 		}(i)
 	}
